@@ -78,6 +78,7 @@ def items(tier):
         out.append({"name": "comp|" + G.show(a), "ast": a, "aspect": "compose", "tier": tier})
     for a in density_exprs(tier):
         out.append({"name": "dens|" + G.show(a), "ast": a, "aspect": "density", "tier": tier})
+    out.append({"name": "tensor-arguments", "aspect": "tensorargs", "tier": tier, "ast": None})
     for shape in ("tetra", "box"):
         for winding in ("out", "in"):
             for source in ("arrays", "file"):
@@ -173,9 +174,71 @@ def run_trimesh(item):
     return res
 
 
+def run_tensorargs(item):
+    """primitives whose shape parameters are given as torch TENSORS (the library keeps them): every observation is repeated
+    and interleaved -- volume, box, sampling, volume again -- and must stay what the same domain built from numbers gives"""
+    import torchphysics as tp
+    from torchphysics.problem.spaces import Space
+    res = {"evals": 0, "transitions": 0, "states": [], "outcomes": [], "violations": [], "rejected": 0, "samples": []}
+    seen = set()
+
+    def viol(key, what):
+        if key in seen:
+            return
+        seen.add(key)
+        res["violations"].append({"key": key, "what": what, "detail": {"item": item["name"]}})
+    T = torch.tensor
+    X1, X2, X3 = Space({"x": 1}), Space({"x": 2}), Space({"x": 3})
+    cases = [
+        ("Interval[1,3]", lambda f: tp.domains.Interval(X1, f(1.0), f(3.0)), L.I(1.0, 3.0)),
+        ("Interval[-2,-0.5]", lambda f: tp.domains.Interval(X1, f(-2.0), f(-0.5)), L.I(-2.0, -0.5)),
+        ("Circle((0.4,-0.3),0.5)", lambda f: tp.domains.Circle(X2, f([0.4, -0.3]), f(0.5)), L.C2),
+        ("Sphere((0.5,-0.2,0.3),0.5)", lambda f: tp.domains.Sphere(X3, f([0.5, -0.2, 0.3]), f(0.5)), L.S2),
+        ("Parallelogram(slanted)", lambda f: tp.domains.Parallelogram(X2, f([0.3, 0.1]), f([1.7, 0.6]), f([-0.2, 1.3])), L.SLP),
+        ("Triangle(slanted)", lambda f: tp.domains.Triangle(X2, f([0.3, 0.1]), f([1.7, 0.6]), f([-0.2, 1.3])), L.TSL),
+    ]
+    for cname, mk, ast in cases:
+        for form, f in (("tensor", lambda v: T(v, dtype=torch.float32)), ("numbers", lambda v: v)):
+            st = "%s|%s" % (cname, form)
+            res["states"].append(st)
+            try:
+                D = mk(f)
+                obs = []
+                with Seam():
+                    for rnd in range(3):
+                        obs.append(("volume", float(torch.as_tensor(D.volume()).reshape(-1)[0])))
+                        obs.append(("boundary-volume", float(torch.as_tensor(D.boundary.volume()).reshape(-1)[0])))
+                        obs.append(("box", [round(float(x), 6) for x in torch.as_tensor(D.bounding_box()).reshape(-1)]))
+                        g = D.sample_grid(n=5)
+                        r = D.sample_random_uniform(n=3)
+                        obs.append(("inside", bool(G.member(ast, {"x": torch.cat([g.as_tensor, r.as_tensor]).double().numpy()}, 1e-4).all())))
+                res["evals"] += len(obs)
+                res["transitions"] += len(obs)
+            except Exception as e:
+                if not is_deliberate(e):
+                    viol("C10|error|%s|tensor-arguments" % type(e).__name__, "%s raised %s: %s" % (st, exc_sig(e), str(e)[:120]))
+                continue
+            want_v = float(G.measure(ast, {}, 1)[0])
+            want_b = float(G.measure(L.B(ast), {}, 1)[0])
+            box = [round(float(x), 6) for x in G.ref_box(ast, {})[0].reshape(-1)]
+            for i, (what, val) in enumerate(obs):
+                exp = {"volume": want_v, "boundary-volume": want_b, "box": box, "inside": True}[what]
+                ok = (abs(val - exp) <= 1e-5 * max(1, abs(exp))) if isinstance(exp, float) else (np.allclose(val, exp, atol=1e-5) if what == "box" else val == exp)
+                if not ok:
+                    viol("C10|repeated-observation|%s|%s" % (what, form), "%s: observation #%d (%s, round %d) = %s, expected %s (the shape parameters were given as %s)" % (
+                        cname, i, what, i // 4, val, exp, form))
+                    break
+            else:
+                res["outcomes"].append(st)
+    res["samples"] = [{"aspect": "tensor-arguments", "cases": [c[0] for c in cases]}]
+    return res
+
+
 def run_item(item):
     if item["aspect"] == "trimesh":
         return run_trimesh(item)
+    if item["aspect"] == "tensorargs":
+        return run_tensorargs(item)
     a, aspect, tier = item["ast"], item["aspect"], item["tier"]
     name = G.show(a)
     res = {"evals": 0, "transitions": 0, "states": [], "outcomes": [], "violations": [], "rejected": 0, "samples": []}
@@ -273,6 +336,49 @@ def run_item(item):
             except Exception as e:
                 if not is_deliberate(e):
                     viol("C10|error|%s|set_volume|%s" % (type(e).__name__, top_sig(a)), "set_volume/volume raised %s: %s" % (exc_sig(e), str(e)[:120]))
+        # a user-set volume of an OPERAND enters the composition rule like a computed one
+        rule = None
+        if a["k"] == "prod" and not (G.free_vars(a["a"]) & {v for v, _ in G.space_vars(a["b"])}):
+            rule = lambda va, vb: va * vb
+        elif a["k"] == "union" and a["disjoint"]:
+            rule = lambda va, vb: va + vb
+        elif a["k"] == "cut" and a["contained"]:
+            rule = lambda va, vb: va - vb
+        elif a["k"] in ("translate", "rotate"):
+            rule = lambda va, vb: va
+        if rule is not None:
+            for batch in batches[:2]:
+                k = len(batch[fv[0]]) if fv else 0
+                vals = {vv: np.asarray(batch[vv], dtype=np.float64).reshape(-1, 1) for vv in batch}
+                prm = Bd.params_points(batch) if batch else Points.empty()
+                ma = G.measure(a["a"], vals, max(k, 1))
+                mb = G.measure(a["b"], vals, max(k, 1)) if isinstance(a.get("b"), dict) else np.zeros(max(k, 1))
+                if ma is None or mb is None:
+                    continue
+                for which, uv in (("first", 7.25), ("second", 0.0625)):
+                    if which == "second" and a["k"] in ("translate", "rotate"):
+                        continue
+                    Dc = Bd.build_tp(a)
+                    op = (getattr(Dc, "domain_a", None) or getattr(Dc, "domain", None)) if which == "first" else getattr(Dc, "domain_b", None)
+                    if op is None:
+                        continue
+                    res["evals"] += 1
+                    res["transitions"] += 1
+                    try:
+                        op.set_volume(uv)
+                        v = _vol(Dc, prm).double().reshape(-1).numpy()
+                    except Exception as e:
+                        if not is_deliberate(e):
+                            viol("C10|error|%s|operand-set-volume|%s" % (type(e).__name__, top_sig(a)), "volume after set_volume on the %s operand raised %s: %s" % (which, exc_sig(e), str(e)[:120]))
+                        continue
+                    exp = rule(np.full_like(ma, uv), mb) if which == "first" else rule(ma, np.full_like(mb, uv))
+                    if len(v) == 1 and len(exp) > 1 and np.allclose(exp, exp[0]):
+                        v = np.repeat(v, len(exp))
+                    if v.shape != exp.shape or not np.allclose(v, exp, rtol=1e-5, atol=1e-7):
+                        viol("C10|operand-user-volume-ignored|%s" % top_sig(a), "with set_volume(%g) on the %s operand, volume(%s) = %s, the composition rule gives %s" % (
+                            uv, which, batch, v.tolist(), exp.tolist()))
+                    else:
+                        res["outcomes"].append("%s|operand-setvol|%s|%s" % (name, which, batch))
         res["samples"] = [{"expr": name, "aspect": aspect, "batches": batches[:2]}]
         return res
 
@@ -340,7 +446,11 @@ def run_item(item):
                                 res["outcomes"].append(st + "|random")
                     else:
                         slack = 0 if exact else int(0.15 * want + 3)
-                        if cnt > ceil_n + slack:
+                        exact_grid = a["k"] == "interval" or (a["k"] == "boundary" and a["a"]["k"] in ("circle", "sphere"))
+                        if exact_grid and cnt != ceil_n:
+                            # equally spaced points on an interval / a circle line, the spiral lattice on a sphere: any n exists
+                            viol("C10|grid-density-count|%s" % kind_sig(a), "grid sampling with d=%g at %s returned %d points, ceil(d*volume())=ceil(%g*%.7g)=%d" % (d, th, cnt, d, v_lib, ceil_n))
+                        elif cnt > ceil_n + slack:
                             viol("C10|grid-density-too-many|%s" % top_sig(a), "grid sampling with d=%g at %s returned %d points, more than ceil(d*measure)=%d" % (d, th, cnt, ceil_n))
                         elif a["k"] in ("interval", "para") and cnt:
                             bad = _regular(a, out, vals1)
